@@ -57,7 +57,8 @@ BYNAME = {
     'pos': INTS, 'start': ['None'] + INTS[:-1], 'end': ['None'] + INTS[:-1], 'bits': SMALL_INTS + ['-2'], 'count': ['None'] + SMALL_INTS + ['-1'], 'n': SMALL_INTS + ['-1', '2 ** 20'],
     'i': SMALL_INTS + ['-9', '100'], 'length': ['None'] + INTS[:-1], 'offset': ['None'] + INTS[:-1], 'key': INTS + ['slice(None)', 'slice(1, 3)', 'slice(None, None, -1)', 'slice(None, None, 0)', 'slice(5, 2)', 'slice(-100, 100, 3)'],
     'bytealigned': BOOLS, 'repeat': BOOLS[1:], 'show_offset': BOOLS[1:], 'fmt': FORMATS, 'width': ['120', '0', '-1', '1', '10 ** 6'], 'sep': SEPS, 'stream': STREAMS_IO, 'f': FILES,
-    'sequence': SEQS, 'iterable': ITERABLES, 'dtype': DTYPES, 'x': NUMBERS, 'other': NUMBERS + ITERABLES[:3] + ["bitstring.Array('u8', [1, 2])", 'a'], 'value': NUMBERS, 'token': DTYPES,
+    'sequence': SEQS, 'iterable': ITERABLES, 'dtype': DTYPES, 'x': NUMBERS, 'other': NUMBERS + ITERABLES[:3] + ["bitstring.Array('u8', [1, 2])", 'a', "bitstring.Array('u8', [1, 0, 3])", "bitstring.Array('i4', [0, 1])", "bitstring.Array('float16', [0.0, -0.0, 1.0])",
+                                                 "bitstring.Array('float16', [float('inf'), float('nan')])", "bitstring.Array('u8', [])"], 'value': NUMBERS, 'token': DTYPES,
     'scale': ['None', '2', '0', '0.5', "'auto'", '-1', "float('nan')", "float('inf')", '2 ** 2000', '1e308'], 'b': BITLIKE, 'bytepos': SMALL_INTS + ['-1'], 's': ["'0b1'", "''", "'0b2'", "'u8=300'", "'2*('", "'hex:3=a'"],
     'initializer': ['[1, 2]', 'None', '3', '-1', "b'ab'", "bitstring.Bits('0x01')", '[300]', "array.array('B', [1])", '2 ** 11', "[float('inf')]", "bytearray(b'a')"], 'trailing_bits': ['None', "'0b1'", "'0b2'", "'0x' + 'f' * 10", "b'a'"],
 }
